@@ -32,6 +32,10 @@ def room_code(r):
         return 1
     if r.startswith("r") and r[1:].isdigit():
         return int(r[1:]) + 2
+    if r.startswith("slow") and r[4:].isdigit():
+        return int(r[4:]) + 101
+    if r.startswith("late") and r[4:].isdigit():
+        return int(r[4:]) + 201
     return 999999
 
 
@@ -128,7 +132,7 @@ def adm_suite(ctx, vh, name, args, goclient=False):
         ctx.violation("admission rig: %s" % s["what"], {"kind": "failing-input", "engine": "middleware", "args": args, "stray": s})
     for i in bad_oracle[:3]:
         r = rows[i]
-        ctx.fail_or_known(None, "namespace %s, chain verdicts %s (0 accept, 1 error, 2 string, 3 data), joins %s: %s"
+        ctx.fail_or_known(None, "namespace %s, chain verdicts %s (0 accept, 1 error, 2 string, 3 data), joins %s (1-3 Join calls, 4 `go Join` held in progress by the adapter, 5 `go Join` started after the answer): %s"
                           % (r["nsp"], r["v"], r["j"], adm_describe(r)),
                           {"kind": "failing-input", "engine": "middleware", "args": args, "case": r})
     if bad_agree and not bad_oracle:
@@ -285,17 +289,19 @@ def run(ctx):
     ctx.rule = ("admission: every accept/reject vector (accept, error, string, structured data) for chains of 0..%d namespace "
                 "middlewares x 2 join patterns (none, random; 3 in the sequential run) x {/, /chat}, 8 concurrent raw-protocol sessions and again (shorter chains) one at a time, "
                 "several rejected CONNECTs then an accepted one per Engine.IO connection; plus a sample through the Go client; "
+                "asynchronous Joins: every verdict vector for chains <=%d with middlewares that start `go socket.Join(..)` - held in progress by a "
+                "blocking adapter across the rest of the chain and the clean-up, or started after the answer (3 patterns); "
                 "forced windows: socket A parked in middleware g (every g, every chain of <=%d reaching g) while B is admitted/refused and "
                 "broadcasts are sent. "
                 "events: 10 handler signatures x every accept/reject chain of 0..%d event middlewares x with/without ack. "
                 "non-trivial = at least one middleware ran (distinct (namespace, verdicts, joins, concurrent?) / (signature, chain, ack))"
-                % ((3, 2, 2) if q else (5, 3, 3)))
+                % ((3, 2, 2, 2) if q else (5, 3, 3, 3)))
     ctx.trusted = ["Coq 8.16.1 kernel + vm_compute",
                    "hand-written model Sio/Middleware.v tied to the working tree by live rigs whose histories are compared with the "
                    "model's prediction by kernel evaluation (sampled / exhaustive for small chains, not proved)",
                    "harness cmd/vh middleware*.go (real server on 127.0.0.1:0, raw peer on the repo's Engine.IO client, repo's Go client)",
                    "one namespace per model instance; Go scheduler, net/http, websocket library"]
-    ctx.assumptions = ["middlewares only join named rooms (not a room named like a socket id) and return",
+    ctx.assumptions = ["middlewares only join named rooms (not a room named like a socket id), synchronously or on goroutines of their own, and return",
                        "socket ids are unique (crypto/rand base64 ids)"]
     ctx.proofs(modules=["Sio/MiddlewareCheck"])
     vh = ctx.go_build()
@@ -305,6 +311,8 @@ def run(ctx):
     suites = [
         lambda: adm_suite(ctx, vh, "raw-conc8", ["-mode", "adm", "-maxlen", k, "-conc", 8, "-seed", ctx.seed, "-joinvariants", 2]),
         lambda: adm_suite(ctx, vh, "raw-seq", ["-mode", "adm", "-maxlen", 2 if q else 3, "-conc", 1, "-seed", ctx.seed + 1]),
+        lambda: adm_suite(ctx, vh, "raw-async", ["-mode", "adm", "-maxlen", 2 if q else 3, "-conc", 16, "-seed", ctx.seed + 5,
+                                                 "-jvfrom", 3, "-joinvariants", 3]),
         lambda: adm_suite(ctx, vh, "goclient", ["-mode", "admgo", "-maxlen", k, "-n", 12 if q else 64, "-seed", ctx.seed + 2]),
         lambda: win_suite(ctx, vh, ["-mode", "win", "-maxlen", 2 if q else 3, "-seed", ctx.seed + 4]),
         lambda: ev_suite(ctx, vh, ["-mode", "ev", "-maxlen", 2 if q else 3, "-seed", ctx.seed + 3]),
